@@ -1004,6 +1004,7 @@ func newStructConverter(typ reflect.Type) (*StructConverter, error) {
 // PointerConverter converts between *T and the Risor equivalent of T.
 type PointerConverter struct {
 	valueConverter TypeConverter
+	valueType      reflect.Type
 }
 
 func (c *PointerConverter) To(obj Object) (interface{}, error) {
@@ -1014,8 +1015,8 @@ func (c *PointerConverter) To(obj Object) (interface{}, error) {
 	if err != nil {
 		return nil, err
 	}
-	vp := reflect.New(reflect.TypeOf(v))
-	vp.Elem().Set(reflect.ValueOf(v))
+	vp := reflect.New(c.valueType)
+	vp.Elem().Set(valueOrZero(v, c.valueType))
 	return vp.Interface(), nil
 }
 
@@ -1034,7 +1035,10 @@ func newPointerConverter(indirectType reflect.Type) (*PointerConverter, error) {
 	if err != nil {
 		return nil, err
 	}
-	return &PointerConverter{valueConverter: indirectConv}, nil
+	return &PointerConverter{
+		valueConverter: indirectConv,
+		valueType:      indirectType,
+	}, nil
 }
 
 // SliceConverter converts between []T and the Risor equivalent of []T.
